@@ -362,7 +362,7 @@ func (c *apiClient) RequestAndDecode(dst interface{}, method, path string, body 
 	}, func(res any) {
 		r := res.(*apiResp)
 		if r.err == nil {
-			c.inc.wire(task, r.news)
+			c.inc.wire(task, r.news, method+" "+path)
 		}
 	}).(*apiResp)
 	if r.err != nil {
